@@ -1,9 +1,5 @@
-SPECIFICATION Spec
+SPECIFICATION DSpec
 CONSTANTS
-  Inputs <- DayInputs
-  PCs <- OnePC
-INVARIANT InvAcceptable
-INVARIANT InvReadable
-INVARIANT InvFixedPoint
-INVARIANT InvCalendar
+  Inputs = {}
+  PCs = {}
 CHECK_DEADLOCK FALSE
